@@ -2,7 +2,11 @@
 package c16
 
 import (
+	"encoding/json"
 	"fmt"
+	"io"
+	"net/http"
+	"net/url"
 	"strings"
 	"testing"
 	"time"
@@ -19,13 +23,22 @@ type Step struct {
 	Op     string   `json:"op"` // add | backup | delete | list | restore
 	Events []string `json:"events,omitempty"`
 	K      int      `json:"k,omitempty"` // which alive backup (mod count)
+	// HTTP: go through the management API (POST /backup, GET /backups, DELETE /backup?backupID=...)
+	// instead of calling the node directly
+	HTTP bool `json:"http,omitempty"`
+	// Spell (delete over HTTP only): how the request names the backup. "" = its decimal id;
+	// "zeros" = the same id with leading zeros (still names it). Everything else names NO
+	// existing backup and must leave the set of backups as it was: "wrap32" = id+2^32,
+	// "wrap33" = id+2^33, "neg" = -id, "plus" = "+id", "hex" = 0x..., "junk", "empty",
+	// "missing" (no parameter), "unknown" (an id never issued), "space" = "id " .
+	Spell string `json:"spell,omitempty"`
 }
 
 type H struct {
 	Steps []Step `json:"steps"`
 }
 
-const rule = "rapid stateful sequences on a single-node RaftNode over RocksDB (executor child): add / bulk, CreateBackup, DeleteBackup(k-th alive), ListBackups, restore(k-th alive backup by id, or 'the latest backup' as `qed restore` without an id does) into a fresh directory followed by opening a fresh node (fresh raft directory, as the documented procedure does) on it in a second child. Model: backup id -> version and event count at backup time. Oracle: ListBackups = model (ids and metadata = version); delete removes exactly the one named; the restored node reports version v, proves membership of every event <= v and consistency of sampled pairs <= v against the snapshots ORIGINALLY issued (= reference model), answers Exists=false for every later event, and its first accepted insertion is acknowledged with version v+1 and the reference digests. Non-trivial: a restore of a backup that has >=1 insertion after it while >=2 backups are alive. distinct = FNV-64 of the history."
+const rule = "rapid stateful sequences on a single-node RaftNode over RocksDB (executor child): add / bulk, CreateBackup, DeleteBackup(k-th alive), ListBackups — each either on the node or (drawn) through the management API in front of it (POST /backup, GET /backups, DELETE /backup?backupID=<spelling>; the spelling is the id, the id with leading zeros, or one that names NO existing backup: id+2^32, id+2^33, -id, +id, 0x<id>, '<id>abc', '<id> ', empty, a never-issued id, or a wrong parameter name) — restore(k-th alive backup by id, or 'the latest backup' as `qed restore` without an id does) into a fresh directory followed by opening a fresh node (fresh raft directory, as the documented procedure does) on it in a second child. Model: backup id -> version and event count at backup time. Oracle: ListBackups = model (ids and metadata = version); delete removes exactly the one named and a request naming no existing backup removes nothing; the restored node reports version v, proves membership of every event <= v and consistency of sampled pairs <= v against the snapshots ORIGINALLY issued (= reference model), answers Exists=false for every later event, and its first accepted insertion is acknowledged with version v+1 and the reference digests. Non-trivial: a restore of a backup that has >=1 insertion after it while >=2 backups are alive. distinct = FNV-64 of the history."
 
 func TestBackupRestore(t *testing.T) {
 	rec := pbt.NewRec("C16", "TestBackupRestore", rule, "backups are taken of non-empty logs (an empty log has no version)")
@@ -41,6 +54,9 @@ func TestBackupRestore(t *testing.T) {
 			}
 			if alive > 0 {
 				if alive > 1 || i%2 == 0 {
+					ops = append(ops, "delete")
+				}
+				if alive > 1 {
 					ops = append(ops, "delete")
 				}
 				if restores < pbt.Scale(2, 3) {
@@ -59,10 +75,18 @@ func TestBackupRestore(t *testing.T) {
 				h.Steps = append(h.Steps, Step{Op: "add", Events: es})
 			case "backup":
 				alive++
-				h.Steps = append(h.Steps, Step{Op: "backup"})
+				h.Steps = append(h.Steps, Step{Op: "backup", HTTP: rapid.Bool().Draw(rt, "http")})
 			case "delete":
-				alive--
-				h.Steps = append(h.Steps, Step{Op: "delete", K: rapid.IntRange(0, 7).Draw(rt, "k")})
+				st := Step{Op: "delete", K: rapid.IntRange(0, 7).Draw(rt, "k"), HTTP: rapid.Bool().Draw(rt, "http")}
+				if st.HTTP {
+					st.Spell = rapid.SampledFrom([]string{"", "", "", "zeros", "wrap32", "wrap32", "wrap33", "neg", "plus", "hex", "junk", "empty", "missing", "unknown", "space"}).Draw(rt, "spell")
+				}
+				if st.Spell == "" || st.Spell == "zeros" {
+					alive--
+				}
+				h.Steps = append(h.Steps, st)
+			case "list":
+				h.Steps = append(h.Steps, Step{Op: "list", HTTP: rapid.Bool().Draw(rt, "http")})
 			case "restore", "restore-latest":
 				restores++
 				h.Steps = append(h.Steps, Step{Op: op, K: rapid.IntRange(0, 7).Draw(rt, "k")})
@@ -116,6 +140,31 @@ func exec(h H, rec *pbt.Rec) error {
 		}
 		return nil
 	}
+	mgmtURL := ""
+	mgmt := func(method, path string, q url.Values) (int, []byte, error) {
+		if mgmtURL == "" {
+			r, err := n.Simple("node-mgmt", 0, "")
+			if err != nil || r.URL == "" {
+				return 0, nil, fmt.Errorf("management API: %v %v", err, r)
+			}
+			mgmtURL = r.URL
+		}
+		u := mgmtURL + path
+		if q != nil {
+			u += "?" + q.Encode()
+		}
+		req, err := http.NewRequest(method, u, nil)
+		if err != nil {
+			return 0, nil, err
+		}
+		resp, err := (&http.Client{Timeout: 60 * time.Second}).Do(req)
+		if err != nil {
+			return 0, nil, err
+		}
+		defer resp.Body.Close()
+		b, _ := io.ReadAll(resp.Body)
+		return resp.StatusCode, b, nil
+	}
 	for si, s := range h.Steps {
 		switch s.Op {
 		case "add":
@@ -125,12 +174,23 @@ func exec(h H, rec *pbt.Rec) error {
 			}
 			m.AddBulk(digestsOf(s.Events))
 		case "backup":
-			r, err := n.Simple("node-backup", 0, "")
-			if err != nil {
-				return unsettled("backup: %v", err)
-			}
-			if r.Err != "" {
-				return fmt.Errorf("step %d: CreateBackup failed: %s", si, r.Err)
+			if s.HTTP {
+				code, body, err := mgmt("POST", "/backup", nil)
+				if err != nil {
+					return unsettled("backup over HTTP: %v", err)
+				}
+				if code != 200 {
+					return fmt.Errorf("step %d: POST /backup answered %d %q", si, code, body)
+				}
+				rec.Class("backup-over-http", 1)
+			} else {
+				r, err := n.Simple("node-backup", 0, "")
+				if err != nil {
+					return unsettled("backup: %v", err)
+				}
+				if r.Err != "" {
+					return fmt.Errorf("step %d: CreateBackup failed: %s", si, r.Err)
+				}
 			}
 			alive = append(alive, backup{id: nextID, version: uint64(m.Len() - 1)})
 			nextID++
@@ -142,6 +202,54 @@ func exec(h H, rec *pbt.Rec) error {
 				continue
 			}
 			k := s.K % len(alive)
+			if s.HTTP {
+				id := alive[k].id
+				q := url.Values{}
+				names := false
+				switch s.Spell {
+				case "":
+					q.Set("backupID", fmt.Sprintf("%d", id))
+					names = true
+				case "zeros":
+					q.Set("backupID", fmt.Sprintf("000%d", id))
+					names = true
+				case "wrap32":
+					q.Set("backupID", fmt.Sprintf("%d", uint64(id)+1<<32))
+				case "wrap33":
+					q.Set("backupID", fmt.Sprintf("%d", uint64(id)+1<<33))
+				case "neg":
+					q.Set("backupID", fmt.Sprintf("-%d", id))
+				case "plus":
+					q.Set("backupID", fmt.Sprintf("+%d", id))
+				case "hex":
+					q.Set("backupID", fmt.Sprintf("0x%x", id))
+				case "junk":
+					q.Set("backupID", fmt.Sprintf("%dabc", id))
+				case "space":
+					q.Set("backupID", fmt.Sprintf("%d ", id))
+				case "empty":
+					q.Set("backupID", "")
+				case "unknown":
+					q.Set("backupID", fmt.Sprintf("%d", nextID+3))
+				case "missing":
+					q.Set("id", fmt.Sprintf("%d", id))
+				}
+				code, body, err := mgmt("DELETE", "/backup", q)
+				if err != nil {
+					return unsettled("delete over HTTP: %v", err)
+				}
+				rec.Class("delete-over-http:"+s.Spell, 1)
+				if names {
+					if code/100 != 2 {
+						return fmt.Errorf("step %d: DELETE /backup?%s (an existing backup) answered %d %q", si, q.Encode(), code, body)
+					}
+					alive = append(alive[:k:k], alive[k+1:]...)
+				}
+				if err := checkList(fmt.Sprintf("step %d after DELETE /backup?%s (answered %d; %s)", si, q.Encode(), code, map[bool]string{true: "names backup " + fmt.Sprint(id), false: "names no existing backup"}[names])); err != nil {
+					return err
+				}
+				continue
+			}
 			r, err := n.Simple("node-backup-delete", uint64(alive[k].id), "")
 			if err != nil {
 				return unsettled("delete: %v", err)
@@ -154,6 +262,28 @@ func exec(h H, rec *pbt.Rec) error {
 				return err
 			}
 		case "list":
+			if s.HTTP {
+				code, body, err := mgmt("GET", "/backups", nil)
+				if err != nil {
+					return unsettled("list over HTTP: %v", err)
+				}
+				var got []struct {
+					ID       int64
+					Metadata string
+				}
+				if code != 200 || json.Unmarshal(body, &got) != nil {
+					return fmt.Errorf("step %d: GET /backups answered %d %q", si, code, body)
+				}
+				if len(got) != len(alive) {
+					return fmt.Errorf("step %d: GET /backups shows %d backups %v, %d exist %v", si, len(got), got, len(alive), alive)
+				}
+				for i, b := range alive {
+					if got[i].ID != b.id || got[i].Metadata != fmt.Sprintf("%d", b.version) {
+						return fmt.Errorf("step %d: GET /backups entry %d is (id %d, metadata %q), expected (id %d, version %d)", si, i, got[i].ID, got[i].Metadata, b.id, b.version)
+					}
+				}
+				rec.Class("list-over-http", 1)
+			}
 			if err := checkList(fmt.Sprintf("step %d", si)); err != nil {
 				return err
 			}
